@@ -56,6 +56,11 @@ type Node struct {
 	Panics []string
 }
 
+// SchemaOf is the zenodb schema of the table definitions.
+func SchemaOf(tables []TableDef, tick time.Duration) zenodb.Schema {
+	return schemaOf(tables, tick)
+}
+
 func schemaOf(tables []TableDef, tick time.Duration) zenodb.Schema {
 	s := zenodb.Schema{}
 	for _, t := range tables {
